@@ -56,6 +56,10 @@ structure RWCfg where
   fillerOnlyForDollar : Bool
   /-- `ReadInstance` hands the severity of a complex instance to `AppendEntityErrorMsg` (as it does for simple ones) -/
   complexReportsError : Bool
+  /-- `ReadInstance` remembers where a record starts (`tellg`) and, when `STEPread` returns WARNING or worse, finds the
+      end of the record from there with `SkipInstance`, the way pass 1 found it, instead of trusting the position the
+      failed read left behind -/
+  errorResyncsFromStart : Bool := false
 deriving Repr, DecidableEq, Inhabited
 
 /-- `in >> c` into a variable that keeps its value when nothing is extracted -/
@@ -787,6 +791,12 @@ def appendEntityError (fileErr sev : Sev) : Sev :=
   if sev == .null then fileErr
   else fileErr.greater (if sev.toInt < Sev.warning.toInt then .warning else sev)
 
+/-- `std::streampos recStart = in.tellg();` in the repaired `ReadInstance`: (stream, a position was obtained).  The
+    sentry of `tellg` sets failbit on a stream that is not good, and -1 is returned. -/
+def markStart (cfg : RWCfg) (s : IStream) : IStream × Bool :=
+  if cfg.errorResyncsFromStart then (if s.good then (s, true) else ({ s with fail := true }, false))
+  else (s, false)
+
 /-- `ReadInstance` after the `#`: new state, and whether an object was returned (with the severity left on it) -/
 def readInstance {F} (ops : FloatOps F) (lex : LexCfg) (cfg : RWCfg) (d : Dict) (strict : Bool) (st : P2 F) :
     M (IOut F) := do
@@ -808,7 +818,9 @@ def readInstance {F} (ops : FloatOps F) (lex : LexCfg) (cfg : RWCfg) (d : Dict) 
         let s4 ← skipInstance cfg s3
         pure { s := s4 }
       else
-        let s4 := readTokenSeparator s3
+        let s4a := readTokenSeparator s3
+        -- `recStart = in.tellg()`: the sentry of `tellg` sets failbit on a stream that is not good and yields -1
+        let (s4, recOk) := markStart cfg s4a
         let (c2, s5) := s4.peekC
         if c2 == 38 then throw (.unmodelled "&SCOPE")
         let env : Env F := { ops := ops, lex := lex, cfg := cfg, dict := d, lookup := Mgr.lookup d st.mgr }
@@ -834,10 +846,17 @@ def readInstance {F} (ops : FloatOps F) (lex : LexCfg) (cfg : RWCfg) (d : Dict) 
             else if c != 69 then (sev.greater .warning, s')
             else (sev, s')
           else (sev, if c != 69 then (shiftInto c s').2 else s')
+        -- the end of the record: `ReadTokenSeparator`, `peek`, then either the resynchronisation from the record's
+        -- start (`clear`, `seekg( recStart )`, `SkipInstance`; the format flag `skipws` is not restored) or the `;` test
+        let fin (sev0 : Sev) (sR : IStream) : M (Sev × IStream) :=
+          let s6 := readTokenSeparator sR
+          if recOk && sev0.toInt ≤ Sev.warning.toInt then do
+            let s7 ← skipInstance cfg { s4 with eof := false, fail := false, bad := false, skipws := s6.skipws }
+            pure (sev0, s7)
+          else pure (semi sev0 s6)
         if c2 == 40 then
           let (sev0, parts', sR) ← rd s5
-          let s6 := readTokenSeparator sR
-          let (sev, s8) := semi sev0 s6
+          let (sev, s8) ← fin sev0 sR
           let inst' := { inst with parts := parts', state := stateOf sev }
           if cfg.complexReportsError then
             pure { s := s8, inst := some inst', reported := some sev, left := some .null }
@@ -849,8 +868,7 @@ def readInstance {F} (ops : FloatOps F) (lex : LexCfg) (cfg : RWCfg) (d : Dict) 
           let (_, s8) := readStdKeyword s7
           let s9 := readTokenSeparator s8
           let (sev0, parts', sR) ← rd s9
-          let s10 := readTokenSeparator sR
-          let (sev, s12) := semi sev0 s10
+          let (sev, s12) ← fin sev0 sR
           let inst' := { inst with parts := parts', state := stateOf sev }
           pure { s := s12, inst := some inst', reported := some sev, left := some .null }
 
